@@ -291,3 +291,21 @@ PROPS["C16"] = dict(
     max_parallel=8,
     min_evaluations={"quick": 40, "thorough": 400},
 )
+
+PROPS["C17"] = dict(
+    title="One connection's failure stays local; lost outbound connections come back",
+    rule="(arith) the real ReconnectState on the complete grid RECONNECT_IVL {1,10,100,1000 ms} x RECONNECT_IVL_MAX {0, IVL, 250 ms, 60 s} x "
+         "attempts 0..100 (first >= IVL, never 0, <= MAX when set, growth <= 2x, non-decreasing, reset after success). (isolate) a bound PULL "
+         "(NULL or PLAIN) over tcp/ipc whose healthy PUSH carries 300 sequenced messages (C01 oracle) while a raw peer injects one fault on "
+         "another connection: garbage greeting, garbage after handshake, wrong socket type, wrong credentials, NULL to a PLAIN listener, RST, "
+         "half-close, oversized frame, or a burst of 400 connect/disconnects (event bus capacity is 256); afterwards the socket's API must "
+         "answer and a new honest peer must be served. (inproc) a connector of an incompatible type is refused and the binder must still serve a "
+         "compatible one. (reconnect) a raw listener accepts and drops: gaps between the PUSH's connect attempts must be >= IVL, <= IVL_MAX + "
+         "slack, grow at most 2x + slack; then a real PULL takes the port and traffic must resume. distinct = scenario.",
+    assumptions=["reconnect slack 350 ms (the passive reconnect runs on a 100 ms maintenance tick)"],
+    shards=lambda tier, seed: [dict(bin="c17", args=["--only", "arith"], timeout=120, name="c17-arith")]
+    + sharded("c17", _n(tier, 8, 16), _n(tier, 300, 1200))
+    + sharded("c17", 4, 300, extra=["--only", "reconnect"], name="c17-reconnect"),
+    max_parallel=10,
+    min_evaluations={"quick": 1000, "thorough": 1500},
+)
